@@ -4,6 +4,7 @@ import (
 	"io"
 	"regexp"
 	"strings"
+	"unicode/utf8"
 
 	"github.com/lyraproj/issue/issue"
 	"github.com/lyraproj/pcore/px"
@@ -124,6 +125,23 @@ func newTypedName2(namespace px.Namespace, name string, nameAuthority px.URI) px
 	return &tn
 }
 
+func canonicalName(authority px.URI, namespace px.Namespace, name string) string {
+	return strings.ToLower(string(authority) + `/` + string(namespace) + `/` + name)
+}
+
+// plain tells whether an offset into the name is also an offset into the canonical form: the lower case form of a
+// letter outside ASCII can be shorter or longer than the letter
+func (t *typedName) plain() bool {
+	for _, s := range []string{string(t.authority), string(t.namespace), t.name} {
+		for i := 0; i < len(s); i++ {
+			if s[i] >= utf8.RuneSelf {
+				return false
+			}
+		}
+	}
+	return true
+}
+
 func typedNameFromMapKey(mapKey string) px.TypedName {
 	if i := strings.LastIndexByte(mapKey, '/'); i > 0 {
 		pfx := mapKey[:i]
@@ -153,6 +171,9 @@ func (t *typedName) child(stripCount int) px.TypedName {
 		name = name[sx+2:]
 	}
 
+	if !t.plain() {
+		return &typedName{namespace: t.namespace, authority: t.authority, name: name, canonical: canonicalName(t.authority, t.namespace, name)}
+	}
 	tn := &typedName{
 		namespace: t.namespace,
 		authority: t.authority,
@@ -173,6 +194,9 @@ func (t *typedName) Parent() px.TypedName {
 	lx := strings.LastIndex(t.name, `::`)
 	if lx < 0 {
 		return nil
+	}
+	if !t.plain() {
+		return &typedName{namespace: t.namespace, authority: t.authority, name: t.name[:lx], canonical: canonicalName(t.authority, t.namespace, t.name[:lx])}
 	}
 	tn := &typedName{
 		namespace: t.namespace,
